@@ -13,7 +13,9 @@ for r in surv:
 out = ["# Mutation analysis of the anchor files (tools/mutate.py)", "",
        "Simple source mutants (statement deletion, negated conditions, swapped operators/constants, dropped copies) of the functions the",
        "claimed properties are anchored in. A mutant counts only if the pinned test-suite does not notice it (all 180 stable tests pass).",
-       "Each such mutant was run against the quick checks (reduced to 8 000 runs) of the properties anchored in its file.", "",
+       "Each such mutant was run against the quick checks (reduced to 8 000 runs) of the properties anchored in its file; every mutant",
+       "no check reported then went through a second pass (`tools/mutate.py --recheck`, 6 000 runs) against all seven checks, because a file",
+       "anchors more properties than the table in mutate.py lists (e.g. `bases.py` carries `put(inplace=False)`, which is C15's business).", "",
        "* mutants sampled: %d; syntax-invalid: %d; killed by the test-suite: %d; unnoticed by the test-suite and checked: %d" % (
            len(recs), stage.get("syntax", 0), stage.get("killed-by-tests", 0), len(surv)),
        "* reported as a VIOLATION by at least one check: **%d of %d**" % (len(caught), len(surv)), "",
